@@ -112,6 +112,13 @@ func (t *FnTrans) binop(op token.Token, a, b Val) Val {
 			return scalar(ty, r)
 		case token.LSS, token.LEQ, token.GTR, token.GEQ:
 			f := t.declareFun("str.lt", []string{"Str", "Str"}, "Bool")
+			// str.lt is a strict total order: ground instances for this pair
+			key := a.S + "|" + b.S
+			if !t.strPairs[key] {
+				t.strPairs[key] = true
+				ab, ba := sx(f, a.S, b.S), sx(f, b.S, a.S)
+				t.assume("true", and(not(and(ab, ba)), implies(eq(a.S, b.S), and(not(ab), not(ba))), implies(not(eq(a.S, b.S)), or(ab, ba))), "string order is a strict total order (instance)")
+			}
 			switch op {
 			case token.LSS:
 				return scalar(types.Typ[types.Bool], sx(f, a.S, b.S))
